@@ -357,6 +357,21 @@ class _OldRewriter(ast.NodeTransformer):
         return self.generic_visit(node)
 
 
+def _old_copy(val, depth=0):
+    """Snapshot for old(): containers are values (copied, two levels), objects are identities (kept)."""
+    if isinstance(val, dict):
+        return {k: (_old_copy(v, depth + 1) if depth < 1 else v) for k, v in val.items()}
+    if isinstance(val, list):
+        return [(_old_copy(v, depth + 1) if depth < 1 else v) for v in val]
+    if isinstance(val, (set, frozenset)):
+        return set(val)
+    if isinstance(val, tuple):
+        return val
+    if type(val).__name__ in ("OrderedSet", "FrozenOrderedSet"):
+        return set(val)
+    return val
+
+
 def native_check(target, con, args: dict, call, ensures=None):
     """Run `call(**args)` natively and evaluate the contract.  Returns a dict describing the outcome:
     {'outcome': 'returned'|'raised', 'failed_clauses': [...], 'contract_ok': bool, ...}."""
@@ -374,7 +389,7 @@ def native_check(target, con, args: dict, call, ensures=None):
         for i, o in enumerate(rw.olds):
             try:
                 val = eval_with(o, env, pre_env)
-                names[f"__old_{i}"] = copy.deepcopy(val)
+                names[f"__old_{i}"] = _old_copy(val)
             except Exception as e:  # noqa: BLE001
                 names[f"__old_{i}"] = e
         parsed.append((cl, tree, names))
